@@ -920,4 +920,319 @@ theorem Track.flap_segment (K : Nat → Hdr → Key) (T : Track) (hi : T.Inv K) 
   · simp only [Track.runFrom, List.foldl_cons, List.foldl_nil, h2]
     rw [h1]
 
+/-! ### Connection loss: **what the handler's epilogue names beyond the session's own peers is already
+withdrawn**, so the RIB history the code produces (`trace`: `WithdrawBulk(ids_for_parent(router id))` at every
+session end) and the one the property asks for (`want`: the ids of the peers that were up on that session)
+have the same effect on every key — for every BMP history in which the epilogue's ids are the session's own
+(`Track.tidyAt`, a decidable condition on the tracker: the up peers of the ending session are registered under
+its router id, and no id registered under that router id is up on another connection).
+-/
+
+/-- Id `m` is the id of some header that is up on some tracked session. -/
+def upL (ss : List TSess) (m : Mui) : Prop := ∃ (j : Nat) (s : TSess) (h : Hdr), ss[j]? = some s ∧ Bmp.lookupUp h s.up = some m
+
+theorem upL_set {ss : List TSess} {i : Nat} {s s' : TSess} {m : Mui} (hs : ss[i]? = some s)
+    (hk : ∀ h, Bmp.lookupUp h s.up = some m → ∃ h', Bmp.lookupUp h' s'.up = some m) :
+    upL ss m → upL (ss.set i s') m := by
+  rintro ⟨j, sj, h, hj, hu⟩
+  by_cases hji : j = i
+  · subst hji
+    rw [hs] at hj; cases hj
+    obtain ⟨h', hu'⟩ := hk h hu
+    have hlt := (List.getElem?_eq_some_iff.mp hs).1
+    exact ⟨j, s', h', by simp [hlt], hu'⟩
+  · exact ⟨j, sj, h, by rw [getElem?_set_other _ _ _ _ hji]; exact hj, hu⟩
+
+theorem upL_append {ss : List TSess} {t : TSess} {m : Mui} : upL ss m → upL (ss ++ [t]) m := by
+  rintro ⟨j, sj, h, hj, hu⟩
+  have hlt := (List.getElem?_eq_some_iff.mp hj).1
+  exact ⟨j, sj, h, by rw [List.getElem?_append_left hlt]; exact hj, hu⟩
+
+theorem specDown_idem (vr : Rib.Variant) (S : Rib.Abs) : Rib.specDown vr (Rib.specDown vr S) = Rib.specDown vr S := by
+  unfold Rib.specDown
+  cases vr.perRecordWithdraw <;> simp [Option.map_map, setWithdrawn_comp]
+
+theorem foldl_bulkOpt (vr : Rib.Variant) (mc : Bool) (p : Rib.Prefix) (m : Mui) (S : Rib.Abs) (ids : List Mui) :
+    (match ids with | [] => [] | ids => [Rib.Ev.downBulk ids]).foldl (Rib.specEv vr mc p m) S
+      = if m ∈ ids then Rib.specDown vr S else S := by
+  cases ids with
+  | nil => simp
+  | cons a b => simp [Rib.specEv]
+
+theorem mem_idsForParent {m rid : Mui} {par : List (Mui × Mui)} :
+    m ∈ idsForParent rid par ↔ (m, rid) ∈ par := by
+  simp only [idsForParent, List.mem_map, List.mem_filter, beq_iff_eq]
+  constructor
+  · rintro ⟨⟨a, b⟩, ⟨h1, h2⟩, h3⟩
+    simp only at h2 h3
+    subst h2; subst h3
+    exact h1
+  · intro h
+    exact ⟨(m, rid), ⟨h, rfl⟩, rfl⟩
+
+theorem lookupUp_append_of_some {h : Hdr} {m : Mui} {up : List (Hdr × Mui)} (x : List (Hdr × Mui))
+    (hl : Bmp.lookupUp h up = some m) : Bmp.lookupUp h (up ++ x) = some m := by
+  induction up with
+  | nil => simp [Bmp.lookupUp] at hl
+  | cons e up ih =>
+    simp only [Bmp.lookupUp, List.cons_append] at hl ⊢
+    by_cases he : e.1 = h
+    · simpa [he] using hl
+    · simp only [he, if_false] at hl ⊢
+      exact ih hl
+
+/-- The condition under which the epilogue of connection `i` names the session's own ids only: the up peers of
+    the session are registered under its router id, and nothing registered under that router id is up on
+    another connection. -/
+def Track.tidyAt (T : Track) (i : Nat) : Prop :=
+  (∀ e ∈ (T.sess.getD i ⟨.dead, []⟩).up, e.2 ∈ idsForParent (T.rids.getD i 0) T.par) ∧
+  (∀ m ∈ idsForParent (T.rids.getD i 0) T.par, ∀ j < T.sess.length, j ≠ i →
+      m ∉ ((T.sess.getD j ⟨.dead, []⟩).up.map (·.2)))
+
+instance (T : Track) (i : Nat) : Decidable (T.tidyAt i) := by
+  unfold Track.tidyAt
+  infer_instance
+
+/-- The guard, per event: only session ends (a lost connection, a Termination message) are constrained. -/
+def Track.tidy (T : Track) : Ev → Bool
+  | .disconnect i => decide (T.tidyAt i)
+  | .msg i .term => decide (T.tidyAt i)
+  | _ => true
+
+def tidyFrom (K : Nat → Hdr → Key) : Track → History → Bool
+  | _, [] => true
+  | T, e :: H => T.tidy e && tidyFrom K (T.step K e).1 H
+
+/-- Per-key invariant: an id that has a parent entry is up somewhere, or a withdrawal of it changes nothing. -/
+def Settled (vr : Rib.Variant) (T : Track) (m : Mui) (S : Rib.Abs) : Prop :=
+  m ∈ T.par.map (·.1) → upL T.sess m ∨ Rib.specDown vr S = S
+
+theorem getD_of_getElem? {ss : List TSess} {i : Nat} {s : TSess} (d : TSess) (h : ss[i]? = some s) :
+    ss.getD i d = s := by
+  simp [List.getD, h]
+
+/-- The heart: at the end of session `i` (its up peers `s.up`), what the epilogue adds to the withdrawal of the
+    session's own ids changes nothing for key `m`, and the invariant survives. -/
+theorem loss_core (vr : Rib.Variant) (T : Track) (m : Mui) (S : Rib.Abs) (i : Nat) (s : TSess)
+    (hg : T.sess[i]? = some s) (ht : T.tidyAt i) (hq : Settled vr T m S) :
+    let ch := idsForParent (T.rids.getD i 0) T.par
+    let S1 := if m ∈ s.up.map (·.2) then Rib.specDown vr S else S
+    (m ∈ s.up.map (·.2) → m ∈ ch) ∧
+    (if m ∈ ch then Rib.specDown vr S1 else S1) = S1 ∧
+    Settled vr { T with sess := T.sess.set i ⟨.dead, []⟩ } m S1 := by
+  intro ch S1
+  have hgd := getD_of_getElem? ⟨.dead, []⟩ hg
+  have hlt := (List.getElem?_eq_some_iff.mp hg).1
+  -- an id that is up somewhere but not on session `i` is up on another session
+  have hup : ¬ m ∈ s.up.map (·.2) → upL T.sess m → ∃ j sj, j ≠ i ∧ T.sess[j]? = some sj ∧ m ∈ sj.up.map (·.2) := by
+    rintro hn ⟨j, sj, h, hj, hu⟩
+    have hmem : m ∈ sj.up.map (·.2) := List.mem_map.mpr ⟨(h, m), lookupUp_mem hu, rfl⟩
+    by_cases hji : j = i
+    · subst hji; rw [hg] at hj; cases hj; exact absurd hmem hn
+    · exact ⟨j, sj, hji, hj, hmem⟩
+  refine ⟨?_, ?_, ?_⟩
+  · intro hm
+    obtain ⟨e, he, rfl⟩ := List.mem_map.mp hm
+    have := ht.1 e (by rw [hgd]; exact he)
+    exact this
+  · by_cases hc : m ∈ ch
+    · simp only [hc, if_true]
+      by_cases hm : m ∈ s.up.map (·.2)
+      · simp only [S1, hm, if_true, specDown_idem]
+      · simp only [S1, hm, if_false]
+        have hpar : m ∈ T.par.map (·.1) := List.mem_map.mpr ⟨(m, _), mem_idsForParent.mp hc, rfl⟩
+        rcases hq hpar with hu | hfix
+        · obtain ⟨j, sj, hji, hj, hmem⟩ := hup hm hu
+          have hjl := (List.getElem?_eq_some_iff.mp hj).1
+          have := ht.2 m hc j hjl hji
+          rw [getD_of_getElem? _ hj] at this
+          exact absurd hmem this
+        · exact hfix
+    · simp only [hc, if_false]
+  · intro hpar
+    by_cases hm : m ∈ s.up.map (·.2)
+    · right; simp only [S1, hm, if_true, specDown_idem]
+    · simp only [S1, hm, if_false]
+      rcases hq hpar with hu | hfix
+      · left
+        obtain ⟨j, sj, h, hj, hu'⟩ := hu
+        have hmem : m ∈ sj.up.map (·.2) := List.mem_map.mpr ⟨(h, m), lookupUp_mem hu', rfl⟩
+        by_cases hji : j = i
+        · subst hji; rw [hg] at hj; cases hj; exact absurd hmem hm
+        · exact ⟨j, sj, h, by rw [getElem?_set_other _ _ _ _ hji]; exact hj, hu'⟩
+      · right; exact hfix
+
+/-- A message that leaves the session's up peers, the parent table and the key alone. -/
+theorem settled_same (vr : Rib.Variant) (T : Track) (m : Mui) (S : Rib.Abs) (i : Nat) (s s' : TSess)
+    (reg : List (Key × Mui)) (next : Mui) (hg : T.sess[i]? = some s) (hup : s'.up = s.up) (hq : Settled vr T m S) :
+    Settled vr ⟨T.sess.set i s', reg, next, T.rids, T.par⟩ m S := by
+  intro hpar
+  rcases hq hpar with hu | hfix
+  · exact Or.inl (upL_set hg (fun h hh => ⟨h, by rw [hup]; exact hh⟩) hu)
+  · exact Or.inr hfix
+
+/-- **One event.** For every key: the events that reach the RIB and the events the property asks for have the same
+    effect, and the invariant is kept. -/
+theorem settle_step (vr : Rib.Variant) (mc : Bool) (p : Rib.Prefix) (m : Mui) (K : Nat → Hdr → Key)
+    (T : Track) (S : Rib.Abs) (e : Ev) (hi : T.Inv K) (hq : Settled vr T m S) (ht : T.tidy e = true) :
+    (T.step K e).2.foldl (Rib.specEv vr mc p m) S = (T.want K e).foldl (Rib.specEv vr mc p m) S ∧
+    Settled vr (T.step K e).1 m ((T.want K e).foldl (Rib.specEv vr mc p m) S) := by
+  cases e with
+  | connect rk =>
+    simp only [Track.step, Track.want, List.foldl_nil, true_and]
+    intro hm
+    rcases hq hm with h | h
+    · exact Or.inl (upL_append h)
+    · exact Or.inr h
+  | disconnect i =>
+    simp only [Track.tidy, decide_eq_true_eq] at ht
+    simp only [Track.step, Track.want]
+    cases hg : T.sess[i]? with
+    | none => exact ⟨rfl, hq⟩
+    | some s =>
+      simp only
+      obtain ⟨h1, h2, h3⟩ := loss_core vr T m S i s hg ht hq
+      have hend : s.endEvs.foldl (Rib.specEv vr mc p m) S = if m ∈ s.up.map (·.2) then Rib.specDown vr S else S := by
+        unfold TSess.endEvs
+        exact foldl_bulkOpt vr mc p m S _
+      have hcode : ([Rib.Ev.downBulk (idsForParent (T.rids.getD i 0) T.par)] : List Rib.Ev).foldl (Rib.specEv vr mc p m) S
+          = if m ∈ s.up.map (·.2) then Rib.specDown vr S else S := by
+        simp only [List.foldl_cons, List.foldl_nil, Rib.specEv]
+        by_cases hm : m ∈ s.up.map (·.2)
+        · simp only [hm, if_true, h1 hm]
+        · simp only [hm, if_false] at h2 ⊢
+          exact h2
+      cases hl : s.life with
+      | dead => simp only [List.foldl_nil, true_and]; exact hq
+      | fresh => simp only; rw [hend, hcode]; exact ⟨rfl, h3⟩
+      | live => simp only; rw [hend, hcode]; exact ⟨rfl, h3⟩
+  | msg i msg =>
+    simp only [Track.step, Track.want]
+    cases hg : T.sess[i]? with
+    | none => exact ⟨rfl, hq⟩
+    | some s =>
+      simp only
+      cases hl : s.life with
+      | dead =>
+        simp only [TSess.step, hl, endedBy, List.append_nil, List.foldl_nil, newChildren_self, true_and]
+        exact settled_same vr T m S i s s T.reg T.next hg rfl hq
+      | fresh =>
+        cases msg <;>
+          simp only [TSess.step, hl, endedBy, List.append_nil, List.foldl_nil, newChildren_self, true_and] <;>
+          first
+            | exact settled_same vr T m S i s s T.reg T.next hg rfl hq
+            | exact settled_same vr T m S i s ⟨.live, s.up⟩ T.reg T.next hg rfl hq
+      | live =>
+        cases msg with
+        | init =>
+          simp only [TSess.step, hl, endedBy, List.append_nil, List.foldl_nil, newChildren_self, true_and]
+          exact settled_same vr T m S i s s T.reg T.next hg rfl hq
+        | stats h =>
+          simp only [TSess.step, hl, endedBy, List.append_nil, List.foldl_nil, newChildren_self, true_and]
+          exact settled_same vr T m S i s s T.reg T.next hg rfl hq
+        | mirror h =>
+          simp only [TSess.step, hl, endedBy, List.append_nil, List.foldl_nil, newChildren_self, true_and]
+          exact settled_same vr T m S i s s T.reg T.next hg rfl hq
+        | routeMon h t u =>
+          simp only [TSess.step, hl]
+          cases hu : Bmp.lookupUp h s.up with
+          | none =>
+            simp only [hl, endedBy, List.append_nil, List.foldl_nil, newChildren_self, true_and]
+            exact settled_same vr T m S i s s T.reg T.next hg rfl hq
+          | some mui =>
+            simp only [hl, endedBy, List.append_nil, newChildren_self, true_and]
+            cases deliverable t with
+            | false => exact settled_same vr T m S i s s T.reg T.next hg rfl hq
+            | true =>
+              simp only [List.foldl_cons, List.foldl_nil, Rib.specEv]
+              by_cases hm : mui = m
+              · subst hm
+                intro _
+                have hlt := (List.getElem?_eq_some_iff.mp hg).1
+                exact Or.inl ⟨i, s, h, by simp [hlt], hu⟩
+              · simp only [hm, if_false]
+                exact settled_same vr T m S i s s T.reg T.next hg rfl hq
+        | peerDown h =>
+          simp only [TSess.step, hl]
+          cases hu : Bmp.lookupUp h s.up with
+          | none =>
+            simp only [hl, endedBy, List.append_nil, List.foldl_nil, newChildren_self, true_and]
+            exact settled_same vr T m S i s s T.reg T.next hg rfl hq
+          | some mui =>
+            simp only [endedBy, List.append_nil, newChildren_self, true_and, List.foldl_cons, List.foldl_nil, Rib.specEv]
+            intro hpar
+            by_cases hm : mui = m
+            · right; simp only [hm, if_true, specDown_idem]
+            · simp only [hm, if_false]
+              rcases hq hpar with hup | hfix
+              · left
+                refine upL_set hg ?_ hup
+                intro h' hh'
+                by_cases hh : h' = h
+                · subst hh; rw [hu] at hh'; cases hh'; exact absurd rfl hm
+                · exact ⟨h', by simp only; rw [lookupUp_filter_other h h' hh]; exact hh'⟩
+              · exact Or.inr hfix
+        | peerUp h e c =>
+          simp only [TSess.step, hl]
+          cases hu : Bmp.lookupUp h s.up with
+          | some mui =>
+            -- the header is up already: its key class is registered, nothing changes
+            have hk : Bmp.lookupKey (K i h) T.reg = some mui := hi i s hg (h, mui) (lookupUp_mem hu)
+            simp only [regFor_of_lookup _ _ _ _ hk, hl, endedBy, List.append_nil, List.foldl_nil, newChildren_self, true_and]
+            exact settled_same vr T m S i s s T.reg T.next hg rfl hq
+          | none =>
+            simp only [endedBy, List.append_nil, List.foldl_nil, true_and]
+            cases hk : Bmp.lookupKey (K i h) T.reg with
+            | some id =>
+              simp only [regFor_of_lookup _ _ _ _ hk, newChildren_self, List.append_nil]
+              intro hpar
+              rcases hq hpar with hup | hfix
+              · exact Or.inl (upL_set hg (fun h' hh' => ⟨h', lookupUp_append_of_some _ hh'⟩) hup)
+              · exact Or.inr hfix
+            | none =>
+              have hr : regFor (K i h) T.reg T.next = (T.reg ++ [(K i h, T.next)], T.next + 1, T.next) := by
+                simp [regFor, hk]
+              simp only [hr, newChildren_succ]
+              intro hpar
+              simp only [List.map_append, List.map_cons, List.map_nil, List.mem_append, List.mem_singleton] at hpar
+              have hlt := (List.getElem?_eq_some_iff.mp hg).1
+              rcases hpar with hpar | rfl
+              · rcases hq hpar with hup | hfix
+                · exact Or.inl (upL_set hg (fun h' hh' => ⟨h', lookupUp_append_of_some _ hh'⟩) hup)
+                · exact Or.inr hfix
+              · exact Or.inl ⟨i, ⟨.live, s.up ++ [(h, T.next)]⟩, h, by simp [hlt], lookupUp_append_new h _ _ hu⟩
+        | term =>
+          simp only [Track.tidy, decide_eq_true_eq] at ht
+          obtain ⟨h1, h2, h3⟩ := loss_core vr T m S i s hg ht hq
+          simp only [TSess.step, hl, endedBy, newChildren_self, List.append_nil, List.foldl_append, List.foldl_cons,
+            List.foldl_nil]
+          cases hids : s.up.map (·.2) with
+          | nil =>
+            simp only [hids, List.not_mem_nil, if_false] at h2 h3
+            simp only [List.foldl_nil, Rib.specEv]
+            exact ⟨h2, h3⟩
+          | cons a b =>
+            simp only [hids] at h2 h3
+            simp only [List.foldl_cons, List.foldl_nil, Rib.specEv]
+            exact ⟨h2, h3⟩
+
+theorem Settled_init (vr : Rib.Variant) (m : Mui) (S : Rib.Abs) : Settled vr Track.init m S := by
+  intro h; simp [Track.init] at h
+
+/-- **Every history.** From any tracker state that satisfies the invariants, along any history whose session ends
+    are tidy: folding C01's per-key specification over what reaches the RIB and over what the property asks for
+    gives the same abstract state. -/
+theorem settle_run (vr : Rib.Variant) (mc : Bool) (p : Rib.Prefix) (m : Mui) (K : Nat → Hdr → Key) (H : History) :
+    ∀ (T : Track) (S : Rib.Abs), T.Inv K → Settled vr T m S → tidyFrom K T H = true →
+      (traceFrom K T H).foldl (Rib.specEv vr mc p m) S = (wantFrom K T H).foldl (Rib.specEv vr mc p m) S := by
+  induction H with
+  | nil => intro T S _ _ _; rfl
+  | cons e H ih =>
+    intro T S hi hq ht
+    simp only [tidyFrom, Bool.and_eq_true] at ht
+    obtain ⟨h1, h2⟩ := settle_step vr mc p m K T S e hi hq ht.1
+    simp only [traceFrom, wantFrom, List.foldl_append]
+    rw [h1]
+    exact ih _ _ (Track.Inv_step K T e hi) h2 ht.2
+
 end Rotonda.PipeBmp
